@@ -277,7 +277,10 @@ class EdgeQLSourceGenerator(codegen.SourceGenerator):
 
         self.new_lines = 1
         self._write_keywords('SET ')
-        self._visit_shape(node.shape)
+        if node.shape:
+            self._visit_shape(node.shape)
+        else:
+            self.write('{}')
 
         if parenthesise:
             self.write(')')
@@ -2526,7 +2529,10 @@ class EdgeQLSourceGenerator(codegen.SourceGenerator):
         self._write_keywords(' INSERT ')
         self.visit(node.name)
         self.indentation += 1
-        self._visit_shape(node.shape)
+        if node.shape:
+            self._visit_shape(node.shape)
+        else:
+            self.write(' {}')
         self.indentation -= 1
 
     def visit_ConfigReset(self, node: qlast.ConfigReset) -> None:
